@@ -393,6 +393,10 @@ class Unit:
             if not text[a:b].startswith("(%s:" % ret):
                 seg.insert(a, "(%s: " % ret, ("gen", "N4"), inline=True)
                 seg.insert(b, ")", ("gen", "N4"), inline=True)
+        elif it.get("ensures") and re.search(r"\basync\s+fn\b", sh.m[:sh.params_open]):
+            # N4b: an `async fn` WITHOUT a declared return type silently loses its ensures at `.await` (observed with this Verus);
+            # spelling the unit return type out, `-> (r: ())`, keeps them
+            seg.insert(sh.params_close + 1, " -> (%s: ())" % ret, ("gen", "N4b"), inline=True)
         pre = self.name + "/" + fn_id
         spec_lines = []
 
